@@ -282,7 +282,7 @@ func init() {
 					}
 					return res
 				}
-				_, obs := c.Scenario.execFn()(c.Trace)
+				obs := replayCase(&c)
 				if strings.HasPrefix(obs, "fired=true|") && !strings.Contains(obs, "|returned|err=true") {
 					res.Violate("replayed:write-error-not-reported", obs, c)
 				}
